@@ -58,7 +58,7 @@ func init() { register("c18.prog", evalC18) }
 func c18Small(typ string) [][]string {
 	switch typ {
 	case "string":
-		return [][]string{{"SET", "s1", "a"}, {"SET", "s1", "b\r\nc"}, {"SET", "s2", "5"}, {"GET", "s1"}, {"SETNX", "s1", "n"}, {"GETSET", "s1", "g"}, {"APPEND", "s1", "x"}, {"INCR", "s2"}, {"INCR", "s1"},
+		return [][]string{{"SET", "s1", "a"}, {"SET", "s1", "b\r\nc"}, {"SET", "s2", "5"}, {"SET", "s2", "007"}, {"GET", "s1"}, {"GET", "s2"}, {"SETNX", "s1", "n"}, {"GETSET", "s1", "g"}, {"APPEND", "s1", "x"}, {"INCR", "s2"}, {"INCR", "s1"},
 			{"STRLEN", "s1"}, {"MSET", "s1", "m", "s2", "7"}, {"MSETNX", "s1", "q", "s2", "q"}, {"MGET", "s1", "s2"}, {"DEL", "s1"}, {"EXISTS", "s1", "s2"}, {"RENAME", "s1", "s2"}, {"RENAME", "s1", "s1"},
 			{"RENAMENX", "s1", "s2"}, {"RENAMENX", "s1", "s1"}, {"GETRANGE", "s1", "0", "1"}, {"TYPE", "s1"}, {"KEYS", "s*"}}
 	case "hash":
@@ -171,7 +171,8 @@ func TestC18(t *testing.T) {
 		h.Col.Exhaustive("all programs of length<=3 over the concrete command list for "+typ, complete)
 	}
 
-	vals := []string{"", "a", "b", "x\r\ny", "\x00\xff+OK\r\n", "12"}
+	// values include integers in non-canonical spellings (a store may keep integers in another representation)
+	vals := []string{"", "a", "b", "x\r\ny", "\x00\xff+OK\r\n", "12", "007", "+5", "-0", "00", " 7", "9223372036854775807", "1.0", "0x10"}
 	members := []string{"m1", "m2", "m3"}
 	scores := []string{"1", "2", "2", "3", "-1.5", "0", "1e3", "2.5"}
 	h.Rapid("programs", h.N(10000, 300000), func(rt *rapid.T) {
